@@ -35,6 +35,14 @@ def canonB (T : Table) (u : Nat) : Nat → Expr → Bool
   | _, _ => true
 
 
+/-- the shape of finding K10: a product whose left operand is an unparenthesised quotient -/
+def noK10 : Expr → Bool
+  | .bin o l r => !(o == "*" && (match l with | .bin "/" _ _ => true | _ => false)) && noK10 l && noK10 r
+  | .paren e => noK10 e
+  | .not e => noK10 e
+  | _ => true
+
+
 /-- token lists as strings (for comparison in the driver) -/
 def tokStr : List Tok → List String
   | [] => []
